@@ -382,7 +382,38 @@ C16Movie(F) ==
 
 (* ---- C15 ---- *)
 Reordered(S) == \E i \in 1..Len(S) : S[i].pt # S[i].dt
+(* Content side of C15 ("stored in the media data in ... order"): read the media data in offset order and cut it *)
+(* into the accepted payloads; when it IS a concatenation of exactly those payloads but in another order than the *)
+(* merge by timestamp (video first on ties), the samples are stored out of order even if every table is right.    *)
+(* Anything that is not such a rearrangement (altered bytes, missing samples) is C01's business, not reported here. *)
+RECURSIVE ParsePerm(_, _, _, _)
+ParsePerm(cat, p, E, used) ==          \* the order (indices of E) in which cat from position p on spells the unused payloads; << 0 >> if it does not
+    IF Cardinality(used) = Len(E) THEN (IF p = Len(cat) + 1 THEN << >> ELSE << 0 >>)
+    ELSE LET cand == { k \in (1..Len(E)) \ used : Slice(cat, p, p + Len(E[k]) - 1) = E[k] /\ p + Len(E[k]) - 1 <= Len(cat) } IN
+         IF cand = {} THEN << 0 >>
+         ELSE LET k == CHOOSE x \in cand : \A y \in cand : x <= y
+                  rest == ParsePerm(cat, p + Len(E[k]), E, used \cup {k}) IN
+              IF rest = << 0 >> THEN << 0 >> ELSE << k >> \o rest
+C15Content(F) ==
+    IF ~cfg.facets.bytes \/ Len(F.tracks) < 2 \/ Reordered(v) THEN {}
+    ELSE LET TV == F.tracks[1]  TA == F.tracks[2]
+             okv == NSamp(TV) = Len(v) /\ \A i \in 1..NSamp(TV) : HasOZ(TV.s[i]) /\ "b" \in DOMAIN TV.s[i]
+             oka == NSamp(TA) = Len(a) /\ \A j \in 1..NSamp(TA) : HasOZ(TA.s[j]) /\ "b" \in DOMAIN TA.s[j]
+         IN IF ~okv \/ ~oka \/ Len(v) + Len(a) > 40 THEN {}
+            ELSE LET ent == [k \in 1..(Len(v) + Len(a)) |->
+                               IF k <= Len(v) THEN [t |-> v[k].pt, kind |-> 0, i |-> k, d |-> v[k].data, o |-> TV.s[k].o, b |-> TV.s[k].b]
+                               ELSE [t |-> a[k - Len(v)].pt, kind |-> 1, i |-> k - Len(v), d |-> a[k - Len(v)].data, o |-> TA.s[k - Len(v)].o, b |-> TA.s[k - Len(v)].b]]
+                     before(x, y) == x.t < y.t \/ (x.t = y.t /\ (x.kind < y.kind \/ (x.kind = y.kind /\ x.i < y.i)))
+                     exp == SortSeq(ent, before)                                  \* merge order by timestamp, video first on ties
+                     byoff == SortSeq(ent, LAMBDA x, y : x.o < y.o \/ (x.o = y.o /\ before(x, y)))
+                     nonempty == SelectSeq(exp, LAMBDA x : x.d # << >>)
+                     E == [k \in 1..Len(nonempty) |-> nonempty[k].d]
+                     cat == Concat([k \in 1..Len(byoff) |-> byoff[k].b])
+                     order == ParsePerm(cat, 1, E, {})
+                 IN IF order # << 0 >> /\ order # [k \in 1..Len(E) |-> k] THEN {Sig("C15", "MergeOrder", "file", "payloads-out-of-order")} ELSE {}
+
 C15Sigs(F) ==
+    C15Content(F) \cup
     LET TV == F.tracks[1]
         mono(T, site) == IF \E i \in 1..(NSamp(T) - 1) : HasOZ(T.s[i]) /\ HasOZ(T.s[i+1]) /\ T.s[i+1].o <= T.s[i].o
                          THEN {Sig("C15", "TrackOrder", site, "decreasing")} ELSE {}
